@@ -206,7 +206,7 @@ class _ProbeMixin:
         'pid': None, 'schema': {}, 'ts': 1, 'cond': 'always',
         'update': {}, 'init': None, 'ts_menu': None, 'log_states': True,
         'log_snapshot': False, 'raise_at': None, 'payload': 0,
-        'reuse_update': False,
+        'reuse_update': False, 'log_return_copy': False,
     }
 
     def _probe_init(self):
@@ -218,11 +218,17 @@ class _ProbeMixin:
         self.pid = self.parameters.get('pid') or self.name
 
     def __deepcopy__(self, memo):
-        cls = self.__class__
-        new = cls.__new__(cls)
-        memo[id(self)] = new
-        for k, v in self.__dict__.items():
-            setattr(new, k, copy.deepcopy(v, memo))
+        # the library's own way of copying a process (if it defines one),
+        # else Python's default; the copy gets a new uid
+        inherited = getattr(super(), '__deepcopy__', None)
+        if inherited is not None:
+            new = inherited(memo)
+        else:
+            cls = self.__class__
+            new = cls.__new__(cls)
+            memo[id(self)] = new
+            for k, v in self.__dict__.items():
+                setattr(new, k, copy.deepcopy(v, memo))
         new.uid = next(_UID)
         new.parent_uid = self.uid
         return new
@@ -295,7 +301,8 @@ class _ProbeMixin:
             if self.parameters.get('reuse_update'):
                 self._reused = upd
         log('return', self.uid, self.pid, n, now(), copy.deepcopy(upd)
-            if self.parameters.get('reuse_update') else upd)
+            if (self.parameters.get('reuse_update') or
+                self.parameters.get('log_return_copy')) else upd)
         return upd
 
 
